@@ -109,6 +109,17 @@ func RunClientLife(r *ev.Result, b run.Batch, seed int64, prop string, n int) {
 	runEpisodes(r, b, seed, sc, prop+":")
 }
 
+// RunWeekRot runs n "weekrot" episodes (lib/prodwt/weekrot.go: a week rotation of a production-build
+// server with devices while the start-up's weekly WattTime job is still waiting; possible only on some
+// days of the week, otherwise the episode reports that it was skipped).
+func RunWeekRot(r *ev.Result, b run.Batch, seed int64, prop string, n int) {
+	var sc []string
+	for i := 0; i < n; i++ {
+		sc = append(sc, "weekrot")
+	}
+	runEpisodes(r, b, seed, sc, prop+":")
+}
+
 func runEpisodes(r *ev.Result, b run.Batch, seed int64, scenarios []string, only string) {
 	bin, err := Build()
 	if err != nil {
@@ -218,7 +229,7 @@ func runEpisodes(r *ev.Result, b run.Batch, seed int64, scenarios []string, only
 		}
 		r.Count("prodwt.episodes", 1)
 		r.Count("prodwt.scenario."+sc, 1)
-		if strings.HasPrefix(sc, "life") || sc == "clientlife" {
+		if strings.HasPrefix(sc, "life") || sc == "clientlife" || sc == "weekrot" {
 			for k, v := range result {
 				if f, ok := v.(float64); ok {
 					r.Count("prodwt."+strings.TrimSuffix(sc, "-wtdown")+"."+k, int64(f))
